@@ -359,7 +359,7 @@ def tmpdir():
 MSG_KIND = [
     (1, r'Defining units inside components'), (3, r'Duplicate component name'), (5, r'Variable \S+ already exists'),
     (6, r'cmeta id .* is already in use'), (7, r'Reactions are not supported'), (8, r'Expecting exactly 1 relationship_ref'),
-    (10, r'already added!|multiple parents not allowed'), (11, r'Cannot connect components that do not exist'),
+    (10, r'already added!|multiple parents not allowed'), (24, r'encapsulates itself'), (11, r'Cannot connect components that do not exist'),
     (13, r'Cannot determine the source & target'), (14, r'Target already assigned'), (15, r'Unable to add connections'),
     (17, r'Cannot transfer cmeta id'), (18, r'is defined twice'), (19, r'not found in symbol dict'),
     (21, r'degree of a derivative must be an int'), (22, r'Equation LHS should be'), (23, r'has no initial_value set'),
@@ -1337,11 +1337,27 @@ def fault_sites(doc):
                 out.append([f, i, j])
     for i, u in enumerate(doc['units']):
         if u['base'] != 'yes':
-            out.append(['offset_units', i])
+            # the schema allows an offset only on a simple unit (one <unit> child without exponent)
+            if len(u['children']) == 1 and u['children'][0].get('exponent') is None:
+                out.append(['offset_units', i])
             out.append(['undefined_units_reference', i])
             out.append(['unit_cycle', i])
         out.append(['duplicate_units', i])
     out.append(['builtin_override'])
+    # cycles in the encapsulation hierarchy: close the chain of a nested component back to its root; a self-reference;
+    # two or three top-level components in a ring
+    par = comp_parent(doc)
+    names = [c['name'] for c in doc['comps']]
+    roots = [n for n in names if n not in par]
+    for n in names:
+        if n in par:
+            out.append(['cyclic_encapsulation', 'close', n])
+    for n in roots[:3]:
+        out.append(['cyclic_encapsulation', 'self', n])
+    if len(roots) >= 2:
+        out.append(['cyclic_encapsulation', 'ring', roots[:2]])
+    if len(roots) >= 3:
+        out.append(['cyclic_encapsulation', 'ring', roots[:3]])
     return out
 
 
@@ -1461,6 +1477,24 @@ def apply_fault(doc, f):
             if par.get(tc) is not None:
                 d['order'].append(['group', len(d['groups']) - 1])
             d['order'].append(['conn', len(d['conns']) - 1])
+    elif k == 'cyclic_encapsulation':
+        par = comp_parent(d)
+        new = []
+        if f[1] == 'close':
+            root = f[2]
+            while root in par:
+                root = par[root]
+            new.append({'rels': ['encapsulation'], 'refs': [[f[2], [[root, []]]]]})
+        elif f[1] == 'self':
+            new.append({'rels': ['encapsulation'], 'refs': [[f[2], [[f[2], []]]]]})
+        else:
+            ring = f[2]
+            for a, b in zip(ring, ring[1:] + ring[:1]):
+                new.append({'rels': ['encapsulation'], 'refs': [[a, [[b, []]]]]})
+        for g in new:
+            d['groups'].append(g)
+            if d.get('order'):
+                d['order'].append(['group', len(d['groups']) - 1])
     elif k == 'offset_units':
         d['units'][f[1]]['children'][0]['offset'] = '1.5'
     elif k == 'undefined_units_reference':
